@@ -18,13 +18,15 @@ HARNESS = {"bin": "pvh_c07", "features": "default"}
 THEOREMS = [
     "PV.C07.conv_table_eq",
     "PV.C07.fstring_eq_spec_partial",
-    "PV.C07.fstring_deviates_selfdoc_in_spec",
-    "PV.C07.fstring_full_fails",
+    "PV.C07.outside_domain_cr",
+    "PV.C07.outside_domain_unispace",
     "PV.C07.merge_spec",
     "PV.C07.selfdoc_spec",
     "PV.C07.strict_is_restriction",
     "PV.C07.field_offsets",
     "PV.C07.capture_no_cr",
+    "PV.C07.field_offsets_in_source",
+    "PV.C07.fstring_prefixes_lexed",
     "PV.C07.field_offsets_crlf_fails",
 ]
 TRUSTED = [
@@ -41,31 +43,34 @@ TRUSTED = [
 ]
 PARTIAL = [
     "fstring_eq_spec_partial holds on the domain `Spec.split strict:=true` answers on: the reference rules minus "
-    "(d) a self-documenting field nested in a format spec — known finding selfdoc-in-spec-unmerged, kernel-checked "
-    "witnesses fstring_deviates_selfdoc_in_spec / fstring_full_fails —, (b') a CR among the white space after a "
-    "self-documenting '=' (no source produces it: CPython's reader and the Rust lexer turn every CR into LF), and "
-    "(e) an expression text consisting of Unicode white space only (rejected by the reference later as an invalid "
-    "expression, which the text/offset abstraction does not see). The former exclusions (a) triple-quoted strings in "
-    "fields, (b) blanks other than spaces after '=', (c) backslashes in the literal text opening a format spec, and the "
-    "empty-literal restriction of merge_spec are gone: repaired in /repo (c09f12b, 897a1b6, 40fcb23, dfa74fc)",
+    "(b') a CR among the white space after a self-documenting '=' (no source produces it: CPython's reader and the Rust "
+    "lexer turn every CR into LF; witness outside_domain_cr) and (e) an expression text consisting of Unicode white "
+    "space only (rejected by the reference later as an invalid expression, which the text/offset abstraction does not "
+    "see; witness outside_domain_unispace) — neither is an f-string the reference accepts from a source. The former "
+    "exclusions (a) triple-quoted strings in fields, (b) blanks other than spaces after '=', (c) backslashes in the "
+    "literal text opening a format spec, (d) a self-documenting field nested in a format spec, and the empty-literal "
+    "restriction of merge_spec are gone: repaired in /repo (c09f12b, 897a1b6, 40fcb23, dfa74fc, and the merge_constants "
+    "fix of parse_spec)",
     "the expression inside a field is abstracted as (text, absolute offset); that the tree in the result is the parse of "
     "'(' text ')' at offset-1 is checked by the harness on every request, not proved",
     "field offsets: proved are (field_offsets) every reported offset locates the field's text in the token value, and "
     "(capture_no_cr) the token value of a CR-free literal is the source slice between the quotes; with a CRLF inside the "
     "literal the offsets are one byte early per CRLF (witness field_offsets_crlf_fails, known finding). The glue between "
-    "the two (prefix and quote lengths of lex_string) is not stated as one theorem; it is sampled by every stream "
-    "through CPython's positions",
+    "the two is field_offsets_in_source, stated over the SHARED lexer model (PV.Lexer.lexIdentifier / lexString, tied by "
+    "C05's streams): for a CR-free f-string token of a file `before ++ inp`, every (text, offset) the Rust scanner "
+    "reports is the byte offset of that text in the file (prefix letters and quotes are ASCII, prefix_len + 1 | 3); it "
+    "inherits the domain of fstring_eq_spec_partial and the NoSurr hypothesis (the body is a Rust str)",
 ]
 READY = True
 TECHNIQUE = ("Lean 4 model of the hand-written f-string scanner + independent reference scanner + theorems relating "
              "them on an explicit domain, exhaustive small-scope and structured random correspondence, CPython as oracle")
 LEVEL_TEXT = ("Machine-checked Lean 4 theorem, for f-string bodies of every length and every start offset: whenever the "
-              "reference scanner (CPython 3.11 rules, validated against CPython on every run) accepts a body inside the "
-              "stated domain (everything but a self-documenting field nested in a format spec), the model of the repaired "
+              "reference scanner (CPython 3.11 rules, validated against CPython on every run) accepts a body (outside two "
+              "shapes that no source-level f-string has), the model of the repaired "
               "Rust scanner accepts it and yields, after merging adjacent literals, "
               "exactly the reference pieces: literal text, and per field the expression text, its absolute offset, the "
-              "conversion (default !r of the '=' form included) and the nested format spec. The one deviating shape "
-              "excluded from the domain is a listed known finding with a kernel-checked witness. Merging across "
+              "conversion (default !r of the '=' form included) and the nested format spec. Field offsets are byte offsets "
+              "into the source file for CR-free literals (composed with the shared lexer model). Merging across "
               "implicitly concatenated literals equals the reference merge. The conversion-letter table is extracted from the real "
               "parser on every run and re-proved by decide. The model is tied to the code by exhaustive small-scope, "
               "directed, random and real-world (stdlib) correspondence; the real code is judged by CPython's own "
@@ -336,9 +341,6 @@ def shapes(src):
             continue
         if "\r\n" in t.body:
             res.add("crlf-field-offset")
-        for f in fields_in_order(t.parts):
-            if f.lvl >= 1 and f.selfdoc is not None:
-                res.add("selfdoc-in-spec-unmerged")
     if toks and toks[0].prefix == "U":
         res.add("kind-marker-uppercase-U")
     return res
@@ -605,11 +607,6 @@ def oracle(req, out):
         return tie_fail
     cand = got
     tags = []
-    if "selfdoc-in-spec-unmerged" in sh:
-        c2 = [x if x[0] == "L" else ("F", x[1], x[2], _normalize(x[3]) if x[3] is not None else None) for x in cand]
-        if c2 != cand:
-            cand = c2
-            tags.append("selfdoc-in-spec-unmerged")
     if "kind-marker-uppercase-U" in sh:
         def unmark(p):
             return [("L", "-", x[2]) if x[0] == "L" else x for x in p]
@@ -777,12 +774,12 @@ CORPUS = [
 KNOWN_PROBES = [
     ("crlf-field-offset", "f'''\r\n{x}'''"),
     ("crlf-field-offset", "f'''a\r\nb\r\n{x}{y!r:>{w}}'''"),
-    ("selfdoc-in-spec-unmerged", "f'{x:{y=}}'"),
-    ("selfdoc-in-spec-unmerged", "f'{x:a{y=}b}'"),
 ]
 
-# the probes of the four findings repaired in /repo (c09f12b, 897a1b6, 40fcb23, dfa74fc): ordinary corpus now
+# the probes of the five findings repaired in /repo (c09f12b, 897a1b6, 40fcb23, dfa74fc, merge_constants): ordinary corpus now
 REPAIRED = [
+    "f'{x:{y=}}'", "f'{x:a{y=}b}'", "f'{x:{y = }}'", "f'{x:{y=!r}}'", "f'{x:{y=}{z=}}'", "f'{x:{y=:>4}}'", "f'{x:{y}{z=}w}'",
+    "f'{x=:{y=}}'", "f'{x:\\x41{y=}}'", "rf'{x:a{y=}b}'", "f\"\"\"{x:{y=\n}}\"\"\"",
     "f'''{\"\"\"a\"b\"\"\"}'''", "f\"{'''a'b'''}\"", "f\"{'''a'''}\"", "f\"{''''''}\"", "f\"{'''a''''b'}\"",
     "f\"{'''a}b{c'''!r:>{w}}\"", "f'''{\"\"\"\n\"\"\" + x}'''",
     "f'{x=\t}'", "f'''{x=\n}'''", "f'{x= \t !r}'", "f'{x=\x0c:>5}'", "f'{ x =\x0b}'", "f'''{x=\r}'''",
